@@ -131,6 +131,12 @@ ExtensionFails(r) ==
     \cup Cl(ObsProns(A, o) = ExpProns(T, li, xi), "ExtensionPronunciations")
     \cup Cl({<<f[2], f[4]>> : f \in Mine(A.aform, o)} = ExpForms(T, li, xi), "ExtensionForms")
     \cup Cl({<<s[2], s[5]>> : s \in Mine(A.asense, o)} = ExpSenses(T, li, xi), "ExtensionSenses")
+    \* a new sense that the extension hangs on a base word is reported with all its attributes
+    \cup Cl(\A s \in {s \in Of(T.sense, xi) : ~s[4] /\ OnExternalEntry(T, xi, s)} :
+              \E q \in Mine(A.asense, o) :
+                 /\ q[2] = EntryId(T, xi, s[2]) /\ q[5] = s[5] /\ q[4] = r.xspec
+                 /\ q[6] = s[6] /\ q[7] = s[8] /\ q[8] = s[9] /\ q[9] = s[7],
+            "ExtensionSenseAttributes")
     \cup Cl({<<x[2], x[4]>> : x \in Mine(A.asex, o)} = ExpSenseExamples(T, li, xi), "ExtensionSenseExamples")
     \cup Cl({<<x[2], x[4], x[5]>> : x \in Mine(A.acount, o)} = ExpCounts(T, li, xi), "ExtensionCounts")
     \cup Cl({<<x[2], x[4]>> : x \in Mine(A.ayex, o)} = ExpSynsetExamples(T, li, xi), "ExtensionSynsetExamples")
